@@ -1,7 +1,7 @@
 //! C14 — implicit methods stay stable and cheap on stiff problems.
 
 use crate::explore::{describe, dim, lattice};
-use crate::problems::Prob;
+use crate::problems::{reflect, Prob};
 use crate::report::{is_thorough, CaseOut, Report, Violation};
 use crate::run::{mname, run, Cfg, Outcome, MI};
 use crate::util::par_map;
@@ -176,15 +176,17 @@ pub fn run_check(replay: Option<Value>) -> i32 {
             for (ti, _) in tols.iter().enumerate() {
                 for ji in 0..2 {
                     for shape in 0..2usize {
-                        jobs.push((mi, *m, fi, ti, ji, shape));
+                        for backward in [false, true] {
+                            jobs.push((mi, *m, fi, ti, ji, shape, backward));
+                        }
                     }
                 }
             }
         }
     }
     let outs = par_map(jobs.len(), |j| {
-        let (mi, m, fi, ti, ji, shape) = jobs[j];
-        let key = format!("ladder:{}.{}.{}.{}{}", mi, fi, ti, ji, if shape == 1 { ".v" } else { "" });
+        let (mi, m, fi, ti, ji, shape, backward) = jobs[j];
+        let key = format!("ladder:{}.{}.{}.{}{}{}", mi, fi, ti, ji, if shape == 1 { ".v" } else { "" }, if backward { ".b" } else { "" });
         if let Some(o) = &only {
             if *o != key {
                 return None;
@@ -197,13 +199,15 @@ pub fn run_check(replay: Option<Value>) -> i32 {
         let mut base_counts: Option<(usize, usize)> = None;
         let mut viols: Vec<(String, String)> = vec![];
         for k in KS {
-            let p = (fam.make)(k);
+            // backward: the time-reflected problem integrated from 0 to -span (the same stable dynamics)
+            let p = if backward { reflect(&(fam.make)(k)) } else { (fam.make)(k) };
+            let xend = if backward { -fam.span } else { fam.span };
             // (a per-component atol below 1e-14 on components of size one asks for less than the rounding
             // noise eps*k*|y| of the stiff right-hand side itself: not a valid request)
             if shape == 1 && (p.n < 2 || tol * 1e-6 < 1e-14) {
                 return None;
             }
-            let mut c = Cfg::new(m, 0.0, fam.span, &p.y0).tol(tol, tol * 1e-2);
+            let mut c = Cfg::new(m, 0.0, xend, &p.y0).tol(tol, tol * 1e-2);
             // shape 1: per-component tolerances with different atol/rtol ratios (odd components 1e4 tighter)
             let atolv: Vec<f64> = (0..p.n).map(|i| if shape == 1 && i % 2 == 1 { tol * 1e-6 } else { tol * 1e-2 }).collect();
             if shape == 1 {
@@ -220,18 +224,18 @@ pub fn run_check(replay: Option<Value>) -> i32 {
                         continue;
                     }
                     let yl = s.y.last().unwrap();
-                    if (s.t.last().unwrap() - fam.span).abs() > 1e-12 * fam.span {
-                        viols.push(("not-at-xend".into(), format!("k={:e}: Success but the last sample is at t={:e}, xend={:e}", k, s.t.last().unwrap(), fam.span)));
+                    if (s.t.last().unwrap() - xend).abs() > 1e-12 * fam.span {
+                        viols.push(("not-at-xend".into(), format!("k={:e}: Success but the last sample is at t={:e}, xend={:e}", k, s.t.last().unwrap(), xend)));
                     }
                     let mut err = f64::NAN;
-                    if let Some(ex) = p.exact(0.0, &p.y0, fam.span) {
+                    if let Some(ex) = p.exact(0.0, &p.y0, xend) {
                         // worst error over all samples past the initial transient
                         err = 0.0;
                         for (t, y) in s.t.iter().zip(&s.y) {
                             // per-component mode: a fast component crosses many decades inside the first
                             // steps (an initial layer of width 1/k that the first step jumps over); its
                             // own tight atol is a fair demand only once the layer is behind
-                            if shape == 1 && *t < 0.1 * fam.span {
+                            if shape == 1 && t.abs() < 0.1 * fam.span {
                                 continue;
                             }
                             let e = p.exact(0.0, &p.y0, *t).unwrap();
@@ -278,7 +282,7 @@ pub fn run_check(replay: Option<Value>) -> i32 {
                 _ => viols.push(("outcome".into(), format!("k={:e}: run ended with {}", k, r.outcome_name()))),
             }
         }
-        let desc = json!({"key": key, "method": mname(m), "family": fam.name, "tol": tol, "jacobian": if ji == 0 { "user" } else { "finite-difference" }, "tolerances": if shape == 1 { "per component (odd components: atol 1e4 times tighter)" } else { "scalar" }, "ladder": rows});
+        let desc = json!({"key": key, "method": mname(m), "family": fam.name, "tol": tol, "jacobian": if ji == 0 { "user" } else { "finite-difference" }, "direction": if backward { "backward (reflected)" } else { "forward" }, "tolerances": if shape == 1 { "per component (odd components: atol 1e4 times tighter)" } else { "scalar" }, "ladder": rows});
         for (c, msg) in viols {
             out.violations.push(Violation::new(&key, &c, msg, desc.clone()).with("method", mname(m)).with("family", fam.name.split('(').next().unwrap_or("")));
         }
